@@ -67,3 +67,17 @@ Definition is_space (c : char) : bool :=
 
 Definition lower_str (s : str) : str := map to_lower s.
 Definition upper_str (s : str) : str := map to_upper s.
+
+(* string literals: s2l "abc" = [97;98;99] *)
+From Coq Require Import String Ascii.
+Definition s2l (s : string) : str := List.map N_of_ascii (list_ascii_of_string s).
+
+Fixpoint prefixb (p s : str) : bool :=
+  match p, s with
+  | [], _ => true
+  | x :: p', y :: s' => N.eqb x y && prefixb p' s'
+  | _ :: _, [] => false
+  end.
+
+Lemma prefixb_app p s : prefixb p (p ++ s) = true.
+Proof. induction p as [|x p IH]; simpl; [reflexivity|]. now rewrite N.eqb_refl. Qed.
